@@ -53,6 +53,9 @@ func pgpCryptoHash() crypto.Hash {
 	return crypto.SHA256
 }
 
+// pgpSecretOf: genuine secret-key material for the public-key bodies that need it to be consistent (RSA)
+var pgpSecretOf = map[string][]byte{}
+
 func pgpMPI(b []byte) []byte {
 	for len(b) > 0 && b[0] == 0 {
 		b = b[1:]
@@ -97,6 +100,19 @@ var (
 func newRSAKey(created uint32, k *rsa.PrivateKey) *pgpKeyMat {
 	body := append(keyHead(created, 1), pgpMPI(k.N.Bytes())...)
 	body = append(body, pgpMPI(big.NewInt(int64(k.E)).Bytes())...)
+	// secret material (RFC 4880 5.5.3): d, p, q, u = p^-1 mod q with p < q
+	{
+		p, q := k.Primes[0], k.Primes[1]
+		if p.Cmp(q) > 0 {
+			p, q = q, p
+		}
+		u := new(big.Int).ModInverse(p, q)
+		var sec []byte
+		for _, x := range []*big.Int{k.D, p, q, u} {
+			sec = append(sec, pgpMPI(x.Bytes())...)
+		}
+		pgpSecretOf[string(body)] = sec
+	}
 	return &pgpKeyMat{algo: 1, created: created, body: body, bits: k.N.BitLen(), signer: func(d []byte) []byte {
 		s, err := rsa.SignPKCS1v15(rand.Reader, k, pgpCryptoHash(), d)
 		if err != nil {
